@@ -47,4 +47,12 @@ F33 comparing signatures whose annotations cannot be evaluated
 F34 UpgradedSignature accepts any iterable
 F35 modifiers wrappers and Combination no longer reserve
 F36 wrappers.wrappers no longer lists a wrapper twice
+F37 knows that generator expressions run when they are consumed
+F38 treats nested async def like nested def
+F39 no longer recurses forever
+F40 falls back when a discovered signature cannot take the bound arguments
+F41 tolerates values that only make sense at run time
+F42 mock objects get the signature inspect gives them
+F43 does not resolve an attribute the function itself assigns
+F44 falls back when the callee cannot be introspected
 LIST
